@@ -15,6 +15,8 @@ type modTargetInfo struct {
 	heaps    []leafHeap
 	paramIdx int
 	direct   bool // target is a leaf field of the struct a parameter points to
+	rootParam int  // index of the parameter the target expression is rooted in (-1 if none)
+	underRoot bool // every address of the target lies inside the object that parameter points to (x.f, x.f.g)
 	// inTarget(r) for each heap, given the environment
 	pred func(env *Env, r Term) Term
 	// exact addresses (one per heap of heaps), or nil when the target is not a fixed set of addresses
@@ -97,7 +99,7 @@ func (a *Act) specType(callee *ssa.Function, e Expr) types.Type {
 
 func (a *Act) modTarget0(callee *ssa.Function, e Expr) *modTargetInfo {
 	d := a.u.D
-	info := &modTargetInfo{paramIdx: -1}
+	info := &modTargetInfo{paramIdx: -1, rootParam: -1}
 	// x[*] : contents of slice or map
 	if ix, ok := e.(*EIndex); ok {
 		if id, ok := ix.I.(*EIdent); ok && id.Name == "$all" {
@@ -227,6 +229,32 @@ func (a *Act) modTarget0(callee *ssa.Function, e Expr) *modTargetInfo {
 			if _, isPtr := types.Unalias(bt).Underlying().(*types.Pointer); isPtr {
 				info.paramIdx = paramIndex(callee, id.Name)
 				info.direct = info.paramIdx >= 0
+			}
+		}
+		// x.f with x a pointer parameter (possibly through embedded struct values): addresses inside *x
+		root := se.X
+		inside := true
+		for {
+			if inner, ok := root.(*ESel); ok {
+				it := a.specType(callee, inner.X)
+				if _, isPtr := types.Unalias(it).Underlying().(*types.Pointer); isPtr {
+					if _, isId := inner.X.(*EIdent); !isId {
+						inside = false // goes through a pointer field: not inside the root object
+					}
+				}
+				root = inner.X
+				continue
+			}
+			break
+		}
+		if id, ok := root.(*EIdent); ok {
+			info.rootParam = paramIndex(callee, id.Name)
+			_, isPtr := types.Unalias(a.specType(callee, root)).Underlying().(*types.Pointer)
+			// se.X itself must denote (a part of) the object x points to
+			if x, ok := se.X.(*EIdent); ok && x == id {
+				info.underRoot = isPtr && inside
+			} else {
+				info.underRoot = isPtr && inside && !typeHasPointerStep(a, callee, se.X)
 			}
 		}
 		heaps := info.heaps
@@ -988,4 +1016,22 @@ func (e *Engine) mayOutput(fn *ssa.Function, seen map[*ssa.Function]bool) bool {
 		}
 	}
 	return false
+}
+
+// typeHasPointerStep: the selector chain e (x.a.b) dereferences a pointer other than the root x.
+func typeHasPointerStep(a *Act, callee *ssa.Function, e Expr) bool {
+	for {
+		se, ok := e.(*ESel)
+		if !ok {
+			return false
+		}
+		if _, isId := se.X.(*EIdent); !isId {
+			t := a.specType(callee, se.X)
+			if _, isPtr := types.Unalias(t).Underlying().(*types.Pointer); isPtr {
+				return true
+			}
+		}
+		// the field selected here: if it is a pointer and we continue selecting through it ...
+		e = se.X
+	}
 }
